@@ -7,6 +7,7 @@ package main
 
 import (
 	"fmt"
+	"sort"
 
 	"verif/c10/lib"
 )
@@ -333,6 +334,28 @@ func (g *gen) emitNode(m *GMsg, n *lnode, be bool, parent *lnode, groups []int, 
 				case 1: // same numbers as the table, one name different
 					vals[g.r.Below(len(vals))].Name = g.name("W")
 					g.tag("enum-table-same-numbers-other-name")
+				case 2: // a strict prefix of the table (in index order)
+					sort.SliceStable(vals, func(i, j int) bool { return vals[i].ID < vals[j].ID })
+					if len(vals) > 1 {
+						vals = vals[:1+g.r.Below(len(vals)-1)]
+						g.tag("enum-table-strict-prefix")
+					}
+				case 3: // the table plus one more value
+					used := map[uint32]bool{}
+					for _, v := range vals {
+						used[v.ID] = true
+					}
+					for id := uint32(0); id < uint32(1)<<uint(n.size) && id < 64; id++ {
+						if !used[id] {
+							vals = append(vals, GVal{id, g.name("X")})
+							g.tag("enum-table-extension")
+							break
+						}
+					}
+				}
+				if g.r.Chance(1, 12) { // an empty VAL_ next to non-empty tables
+					vals = []GVal{}
+					g.tag("enum-empty-next-to-table")
 				}
 				if g.r.Chance(1, 2) { // VAL_ lines need not be in index order
 					for i, j := 0, len(vals)-1; i < j; i, j = i+1, j-1 {
@@ -544,6 +567,10 @@ func Generate(r *lib.Rng) *GDoc {
 	}
 	g.attributes()
 	g.invalidate()
+	if g.r.Chance(1, 4) {
+		g.d.PadZeros = true
+		g.tag("doc-zero-padded-numbers")
+	}
 	return d
 }
 
@@ -760,7 +787,41 @@ func (g *gen) invalidate() {
 		m := msgs[r.Below(len(msgs))]
 		return m, m.Sigs[r.Below(len(m.Sigs))]
 	}
-	switch r.Below(15) {
+	switch r.Below(19) {
+	case 15, 16, 17, 18: // overlapping signals, in every configuration: the importer must refuse
+		// 15 contained, 16 containing / identical, 17 plain signal inside the multiplexer's span, 18 two signals of one group
+		which := 15 + r.Below(4)
+		for try := 0; try < 20; try++ {
+			m, s1 := pickSig()
+			if s1 == nil || len(m.Sigs) < 2 {
+				continue
+			}
+			s2 := m.Sigs[r.Below(len(m.Sigs))]
+			if s2 == s1 {
+				continue
+			}
+			switch which {
+			case 15:
+				if s1.Size < 2 {
+					continue
+				}
+				s2.Start, s2.BE, s2.Size = s1.Start, s1.BE, 1+uint32(r.Below(int(s1.Size)-1))
+			case 16:
+				s2.Start, s2.BE, s2.Size = s1.Start, s1.BE, s1.Size+uint32(r.Below(2))
+			case 17:
+				if !(s1.Muxed || s1.Muxor) || s2.Muxed || s2.Muxor {
+					continue
+				}
+				s2.Start, s2.BE, s2.Size = s1.Start, s1.BE, s1.Size
+			default:
+				if !s1.Muxed || !s2.Muxed || s1.Muxor || s2.Muxor {
+					continue
+				}
+				s2.Switch, s2.Start, s2.BE = s1.Switch, s1.Start, s1.BE
+			}
+			g.tag(fmt.Sprintf("doc-overlap-%d", which))
+			return
+		}
 	case 14: // the multiplexor switch loses its M: the multiplexed signals have no switch any more
 		for _, m := range msgs {
 			for _, s := range m.Sigs {
